@@ -376,6 +376,43 @@ def construct(ctx, specs, form='dict'):
     return ctx.done(ctx.AND(*oks), ctx.observe(ds))
 
 
+def extract_dim(ctx, struct, dim, how):
+    """ds[dim] (a dimension read as a variable) is a 1-D array of the labels; editing that array in place is not a dataset
+    mutation: the dataset, its axes and all variables stay as they were"""
+    ds, st = build(ctx, STRUCTS[struct])
+    L = st['labels'][dim]
+    n = len(L)
+    kind = LK[DIMS.index(dim)]
+    r = ctx.call(lambda: ds[dim])
+    if r[0] != 'ok':
+        return ctx.done(False, r[1], inplace=True)
+    t = r[1]
+    oks = [same(ctx, t, Ref([dim], [L], list(L)))]
+    new = ctx.label(kind, 'w')
+    j = ctx.choice('j', n)
+    if how == 'setitem-label':
+        f = lambda: t.__setitem__(L[j], new)
+    elif how == 'ix':
+        def f():
+            t.ix[j] = new
+    elif how == 'values':
+        def f():
+            t.values[j] = new
+    elif how == 'fill':
+        f = lambda: t.values.fill(new)
+    elif how == 'put':
+        f = lambda: t.put(L[j], new, inplace=True)
+    elif how == 'imul':
+        def f():
+            t.values[...] = t.values[::-1].copy()
+    else:
+        raise ValueError(how)
+    r2 = ctx.call(f)
+    oks.append(inv(ctx, ds))
+    oks.append(state_eq(ctx, ds, st))
+    return ctx.done(ctx.AND(*oks), [r2[1] if r2[0] != 'ok' else None, ctx.observe(ds)], inplace=True)
+
+
 def templates():
     ts = []
 
@@ -405,6 +442,9 @@ def templates():
             for how in ('axes[d]=Axis', 'axes[d]=values', 'axes[d][i]=label', 'set_axis', 'set_axis_pos', 'attr', 'axis.values', 'var.axis[i]', 'var.set_axis', 'set_axis_copy', 'var.labels', 'var.attr'):
                 add('relabel-%s-%s-%s' % (sname, dim, how), 'relabel', cost=0.3, struct=sname, how=how, dim=dim)
             add('wrongsize-%s-%s' % (sname, dim), 'wrong_size', cost=0.2, struct=sname, dim=dim)
+            for how in ('setitem-label', 'ix', 'values', 'fill', 'put', 'imul'):
+                if sname in ('a_x-b_yx', 'a_xy-b_y-c_0', 'a_x') or how == 'setitem-label':
+                    add('extract-dim-%s-%s-%s' % (sname, dim, how), 'extract_dim', cost=0.3, struct=sname, dim=dim, how=how)
         if len(dims) >= 2:
             add('rename-%s-dims-rotate' % sname, 'rename', cost=0.2, struct=sname, how='dims-rotate', dim=dims[0])
         if keys:
